@@ -196,6 +196,60 @@ func checkC08(c *Ctx) {
 			}
 		}
 		c.Check(okOrder, "R2", site+" state updated before the emit", addCall.Pos(), "stores precede the emits", "an event is emitted before the stored state is updated")
+		// the add event flips "never seen" to "seen": when the controller's creation does not depend on this value
+		// (endpoints: a processor is created with any host list), the stored value must be non-nil once the add event
+		// is out - otherwise the next update is announced with a second add event, which the controller ignores
+		if hn.field == "Endpoints" {
+			makesNonNil := func(x ssa.Instruction) bool {
+				st, ok := x.(*ssa.Store)
+				if !ok {
+					return false
+				}
+				f, _ := fieldAddr(st.Addr)
+				if f == nil || f.Name() != hn.field || !strings.HasSuffix(ownerOf(p, f), "serviceWrapper") {
+					return false
+				}
+				switch v := st.Val.(type) {
+				case *ssa.MakeSlice:
+					return true
+				case *ssa.Call:
+					return isBuiltin(v, "append")
+				case *ssa.Slice:
+					_, isAl := v.X.(*ssa.Alloc)
+					return isAl
+				}
+				return false
+			}
+			// an edge on which the stored list was just tested non-nil discharges the path as well
+			nonNilEdge := map[*ssa.BasicBlock]int{}
+			eachInstr(fn, func(_ *ssa.BasicBlock, _ int, x ssa.Instruction) {
+				bo, ok := x.(*ssa.BinOp)
+				if !ok || (bo.Op != token.EQL && bo.Op != token.NEQ) || !isNilConst(bo.Y) {
+					return
+				}
+				f, _ := loadedField(bo.X)
+				if f == nil || f.Name() != hn.field {
+					return
+				}
+				for _, r := range *bo.Referrers() {
+					if iff, ok := r.(*ssa.If); ok {
+						if bo.Op == token.EQL {
+							nonNilEdge[iff.Block()] = 1
+						} else {
+							nonNilEdge[iff.Block()] = 0
+						}
+					}
+				}
+			})
+			path := findPath(entryPos(fn), pathQuery{target: func(x ssa.Instruction) bool { return x == ssa.Instruction(addCall) }, avoid: makesNonNil,
+				edge: func(b *ssa.BasicBlock, k int) bool {
+					if e, ok := nonNilEdge[b]; ok && e == k {
+						return false // known non-nil from here on (no store assigns nil)
+					}
+					return true
+				}})
+			c.Check(path == nil, "R2", site+" add event leaves the list known", addCall.Pos(), "every path to the add event stores a non-nil list", "an add event can be emitted while the stored endpoint list stays nil ("+p.pathString(path)+"): an update that only removes (or adds nothing new) announces the service - its processor is created without hosts - and the next update is announced with a second add event, which the controller ignores because the processor exists: the hosts are never added")
+		}
 	}
 	c.Expect("R2", 5)
 
@@ -303,6 +357,36 @@ func checkC08(c *Ctx) {
 			c.Fail("R3", "delta order agreement", ca.Pos(), "the store applies one update as "+storeOrder+" but the controller applies the resulting event as "+ctlOrder+": an address that is in both lists of one update ends present in the store and absent in the processor (or the reverse)")
 		}
 	}()
+
+	// endpoint identity: the store finds an endpoint by its address - the key the controller's hosts and the host set
+	// use; comparing whole endpoint messages (state, type ...) makes the store miss removals / duplicate re-adds
+	if st := p.Func(configPkg, "(*Config).handleSvcEndpointUpdate"); st != nil {
+		bad := ""
+		var at token.Pos = st.Pos()
+		nEq := 0
+		for _, f := range append([]*ssa.Function{st}, staticCalleesDeep(st, 2)...) {
+			if f.Pkg == nil || f.Pkg.Pkg.Path() != modPath+"/"+configPkg {
+				continue
+			}
+			eachInstr(f, func(_ *ssa.BasicBlock, _ int, in ssa.Instruction) {
+				cc := callOf(in)
+				if cc == nil {
+					return
+				}
+				g := calleeFn(cc)
+				if g == nil || g.Name() != "Equal" || g.Signature.Recv() == nil {
+					return
+				}
+				nEq++
+				rt := types.TypeString(g.Signature.Recv().Type(), nil)
+				if !strings.HasSuffix(rt, "common.Address") {
+					bad = rt
+					at = in.Pos()
+				}
+			})
+		}
+		c.Check(bad == "" && nEq > 0, "R3", "endpoint identity is the address", at, "endpoints are compared by Address.Equal", "the store compares endpoints with "+bad+".Equal instead of by address: a removal that carries another state or type than the stored entry is not found (the processor keeps the host for ever), and a re-add with another type creates a duplicate entry")
+	}
 
 	// ---------------- R4
 	allowedW := map[string]bool{"controller.(*Controller).addProc": true, "controller.(*Controller).removeProcLocked": true}
@@ -589,4 +673,75 @@ func checkC08(c *Ctx) {
 		})
 	}()
 	c.Expect("R8", 3)
+
+	c.Rule("R9", "a configuration update reaches the data path: the shared holder is updated in place (its pointer is never replaced after construction) and nothing caches a configuration message")
+	checkLiveConfig(c, "R9")
+}
+
+// checkLiveConfig (C08.R9, C13.R9): a running Redis processor applies a configuration update by updating the one
+// holder object (`config`) that the upstream, every backend connection and every filter share by pointer. Two
+// structural conditions keep the data path on the latest configuration:
+//   (a) a field of holder type is written only while its struct is being constructed - replacing the pointer later
+//       leaves every other component on the old holder;
+//   (b) no struct of the package (other than the holder) keeps a pointer to a protobuf configuration message in a
+//       field - such a copy is resolved once and never sees an update.
+func checkLiveConfig(c *Ctx, rule string) {
+	p := c.P
+	holder := p.Named(redisPkg, "config")
+	pk := p.TPkg(redisPkg)
+	if holder == nil || pk == nil {
+		c.Unresolved(rule, "proc/redis.config")
+		return
+	}
+	isHolderPtr := func(t types.Type) bool {
+		pt, ok := t.(*types.Pointer)
+		return ok && types.Identical(pt.Elem(), holder)
+	}
+	isPbConfigPtr := func(t types.Type) bool {
+		pt, ok := t.(*types.Pointer)
+		if !ok {
+			return false
+		}
+		n, ok := pt.Elem().(*types.Named)
+		return ok && n.Obj().Pkg() != nil && strings.Contains(n.Obj().Pkg().Path(), "/pb/config/")
+	}
+	sc := pk.Types.Scope()
+	names := sc.Names()
+	sort.Strings(names)
+	n := 0
+	for _, nm := range names {
+		tn, ok := sc.Lookup(nm).(*types.TypeName)
+		if !ok {
+			continue
+		}
+		st, ok := tn.Type().Underlying().(*types.Struct)
+		if !ok {
+			continue
+		}
+		for i := 0; i < st.NumFields(); i++ {
+			f := st.Field(i)
+			switch {
+			case isHolderPtr(f.Type()):
+				n++
+				site := fmt.Sprintf("%s.%s (config holder) written only at construction", nm, f.Name())
+				bad := ""
+				var at token.Pos
+				for _, a := range p.fieldAccesses(f) {
+					if !a.Write || p.isTestFn(a.Fn) {
+						continue
+					}
+					if !isFreshAlloc(a.Base) {
+						bad = fnKey(a.Fn)
+						at = a.In.Pos()
+					}
+				}
+				c.Check(bad == "", rule, site, at, "assigned only in constructors", "the holder pointer is replaced in "+bad+": the upstream, the backend connections and the filters keep the holder they were given, so the data path (read strategy, compression, timeouts) stays on the old configuration while the processor reports the new one")
+			case isPbConfigPtr(f.Type()) && !types.Identical(tn.Type(), holder):
+				n++
+				c.Fail(rule, fmt.Sprintf("%s.%s caches a configuration message", nm, f.Name()), f.Pos(), "a struct other than the holder keeps a pointer to a configuration message ("+types.TypeString(f.Type(), nil)+"): it is resolved when the struct is created and never sees a later configuration update - e.g. a connection created before compression was enabled never decompresses")
+			}
+		}
+	}
+	c.Expect(rule, 3)
+	_ = n
 }
